@@ -18,7 +18,7 @@
    sequence), ex_sites_after_clear, ex_tracked_after_clear, ex_seek_nan, ex_iter_run. *)
 From Coq Require Import List ZArith.
 From TskVerif Require Import Base.Common C06.Model C06.Facts C06.BasicProofs C06.ListFacts C06.Valid
-  C06.CursorProofs C06.NavProofs C06.Theorems C06.IterProofs C06.FullProofs.
+  C06.CursorProofs C06.NavProofs C06.Theorems C06.IterProofs C06.FullProofs C06.CountProofs.
 Import ListNotations.
 Open Scope Z_scope.
 
@@ -111,6 +111,53 @@ Theorem full_refines_core : forall ts ops, valid_tsb ts = true ->
     abs (fst sf) = abs (fst sc) /\ abs (snd sf) = abs (snd sc) /\
     spec_state ts (fst sf) /\ spec_state ts (snd sf).
 Proof. exact full_refines_core_proof. Qed.
+
+(* (i) THE COUNTS ARE CANONICAL.  After any op list the tracked-sample counts of the machine
+   [full] (ancestor walks of tsk_tree_insert_edge / tsk_tree_remove_edge, tsk_tree_clear with the
+   repair fcbdf2e) satisfy the subtree-sum recurrence
+        count[u] = own[u] + sum of count[v] over the children v of u     (0 <= u < N)
+   over the canonical parent array (counts_rec; own = the tracked_samples option, virtual-root
+   slot untouched), and — the recurrence having exactly one solution on an acyclic forest —
+   they are EQUAL to the counts of a fresh Tree moved directly to the same index, together with
+   everything in [abs].  The option array is arbitrary (any set of tracked samples); taking
+   every sample as tracked makes this the statement for num_samples (same walk, same loop). *)
+Theorem counts_canonical : forall ts ops, valid_tsb ts = true ->
+  exists sf outs fr outs',
+    run full ts ops = Ok (sf, outs) /\
+    run full ts (fresh_ops (t_index (fst sf))) = Ok (fr, outs') /\
+    abs (fst sf) = abs (fst fr) /\ t_tracked (fst sf) = t_tracked (fst fr) /\
+    counts_rec ts (fst sf) /\ counts_rec ts (snd sf).
+Proof. exact counts_canonical_proof. Qed.
+
+(* (j) The views the quintuply linked arrays present — children sets, number of children, and the
+   roots (children of the virtual root = parentless nodes whose count reaches root_threshold) —
+   are functions of (parent array, count array) and therefore canonical too, up to the order of
+   children.  (children_of / roots_of are the SPEC of these views; that the C linked lists
+   represent exactly these sets is C01's representation invariant — here they are tied to the
+   implementation by the correspondence, after every op, with every sample tracked.) *)
+Theorem views_canonical : forall ts ops thr, valid_tsb ts = true ->
+  exists sf outs fr outs',
+    run full ts ops = Ok (sf, outs) /\
+    run full ts (fresh_ops (t_index (fst sf))) = Ok (fr, outs') /\
+    (forall u, children_of (t_parent (fst sf)) (ts_N ts) u = children_of (t_parent (fst fr)) (ts_N ts) u) /\
+    roots_of (t_parent (fst sf)) (t_tracked (fst sf)) (ts_N ts) thr =
+    roots_of (t_parent (fst fr)) (t_tracked (fst fr)) (ts_N ts) thr /\
+    obs_views ts thr (fst sf) = obs_views ts thr (fst fr).
+Proof. exact views_canonical_proof. Qed.
+
+(* (k) NAV_CANONICAL — the property text except the sample lists: after any finite op list the
+   state of the machine with counts equals that of a fresh Tree moved directly to the same
+   index in index, interval, parent array, edge array, num_edges, site list, counts, and (up to
+   the order of children) children sets and roots for any root_threshold.  nav_canonical_partial
+   above is its [core] half.  Still differential only: the sample lists (sets), and that the C
+   quintuply linked arrays represent children_of / roots_of (C01). *)
+Theorem nav_canonical : forall ts ops thr, valid_tsb ts = true ->
+  exists sf outs fr outs',
+    run full ts ops = Ok (sf, outs) /\
+    run full ts (fresh_ops (t_index (fst sf))) = Ok (fr, outs') /\
+    abs (fst sf) = abs (fst fr) /\ t_tracked (fst sf) = t_tracked (fst fr) /\
+    obs_views ts thr (fst sf) = obs_views ts thr (fst fr).
+Proof. exact nav_canonical_full_proof. Qed.
 
 (* (g) seek is total on EVERY argument, NaN included (fix eee123e): Tree.seek(x) either lands
    on the tree containing x, or raises ValueError and leaves both trees untouched; the
